@@ -17,7 +17,9 @@ let read_item r : work_item =
   let ni = int_of_string (next r) in
   let xl = next r in
   let imports = List.init ni (fun i -> ([ n_of_int (i + 1) ], n_of_int i)) in
-  let xs = if xl = "-" then [] else List.mapi (fun k s -> ([ n_of_int k ], n_of_string s)) (String.split_on_char ',' xl) in
+  let xs = if xl = "-" then [] else List.mapi (fun k s -> match String.index_opt s '=' with
+      | Some i -> ([ n_of_int (int_of_string (String.sub s (i + 1) (String.length s - i - 1))) ], n_of_string (String.sub s 0 i))
+      | None -> ([ n_of_int k ], n_of_string s)) (String.split_on_char ',' xl) in
   { wi_service = svc; wi_code_hash = code; wi_payload = payload; wi_refine_gas = rg; wi_acc_gas = ag;
     wi_export_count = ec; wi_imports = imports; wi_extrinsics = xs }
 
